@@ -110,7 +110,7 @@ func TestC44(t *testing.T) {
 	rec.Assume("the previous hop and the outer IP destination are what the socket layer reports (IP_PKTINFO)", "IPv4-mapped IPv6 and IPv4 forms of an address denote the same host")
 	rec.Require("forwarded_udp", "forwarded_svc", "forwarded_scmp_reply", "forwarded_scmp_error_udp_quote", "forwarded_scmp_error_echo_quote", "answered_echo", "answered_traceroute", "dropped_other_host", "dropped_unknown_service", "dropped_error_on_error", "dropped_unknown_scmp",
 		"dropped_function_off", "dropped_other_l4", "with_hbh", "with_e2e", "mutated_forwarded", "mutated_dropped", "ipv6_destination", "mapped_underlay")
-	hosts := []netip.Addr{netip.MustParseAddr("10.2.2.2"), netip.MustParseAddr("10.2.2.3"), netip.MustParseAddr("2001:db8::2")}
+	hosts := []netip.Addr{netip.MustParseAddr("10.2.2.2"), netip.MustParseAddr("10.2.2.3"), netip.MustParseAddr("2001:db8::2"), netip.MustParseAddr("2001:db8::a02:202")} // the last one ends in the bytes of 10.2.2.2
 	svcMap := map[addr.Addr]netip.AddrPort{{IA: c44Local, Host: addr.HostSVC(addr.SvcCS)}: c44Svc}
 	rapid.Check(t, func(rt *rapid.T) {
 		isDisp := rapid.IntRange(0, 4).Draw(rt, "dispatcherFunction") > 0
